@@ -22,14 +22,17 @@ from vf.h import inv as I
 from vf.h import stubs
 from nrel.hive.state.simulation_state.update.step_simulation_ops import step_vehicle
 from nrel.hive.reporting.report_type import ReportType
+from nrel.hive.util.units import SECONDS_TO_HOURS
 
 stubs.install_np_shim()
 stubs.install_h3_shim()
+stubs.install_time_diff_shim()
 
 CASE = int(os.environ.get("VF_CASE", "0"))
 ORACLE = os.environ.get("VF_ORACLE", "C02")
 KIND = CASE
-DT_MAX = int(os.environ.get("VF_DT_MAX", "300"))
+_DTM = None
+DT_MAX = int(os.environ.get("VF_DT_MAX", "150" if KIND in (3, 4, 6, 7) else "300"))
 
 PLUG_KINDS = (3, 4, 7)
 REQ_KINDS = (9, 12)
@@ -116,9 +119,12 @@ def _run(cell, plug, tot, g, q, stalls, sg, s1g, r0d, r0p, ms, ice, e, dt, pick,
     if len(route) == 1:
         tgt = A.KIND_TARGET_CELL[KIND]
         stubs.H3_SHIM.candidates = _CAND[(c, tgt)]
+    elif KIND == 9 and c == 2:
+        stubs.H3_SHIM.candidates = _CAND[(2, 3)]  # picks up r0 and drives the first leg C -> D in the same step
     else:
         stubs.H3_SHIM.candidates = (v_pre.geoid,)
     stubs.H3_SHIM.pick = pick
+    stubs.H3_SHIM.last = None
     env, rec = A.env_with_recorder()
     x = Ctx()
     x.w, x.sim, x.env, x.rec, x.v, x.ice, x.cap, x.dt, x.e, x.c = w, sim, env, rec, v_pre, is_ice, cap, dt, e, c
@@ -161,7 +167,7 @@ def _o_c04(x) -> bool:
         st = x.v2.vehicle_state
         station = x.sim2.stations["s0" if x.k2 == 3 else "s1"]
         rate = station.state[st.charger_id].charger.rate
-        limit = rate * x.dt if x.ice else rate * x.dt / 3600.0
+        limit = rate * x.dt if x.ice else rate * x.dt * SECONDS_TO_HOURS
         if not (fle(e0, e1) and fle(e1 - e0, limit)):
             return False
     if KIND in TRAVEL_KINDS and x.k2 == 1:
@@ -247,12 +253,25 @@ def _o_c06(x) -> bool:
         # the split point is the junction between driven and remaining part
         if not (v2.position.link_id == link.link_id):
             return False
-        # progress: a vehicle with energy leaves the start cell
-        if v2.geoid == v.geoid:
-            return False
-        # no faster than the road allows
-        if not fle(d_odo, link.speed_kmph * x.dt / 3600.0 + 0.002):
-            return False
+        # no faster than the road allows: the point requested from the geometry library lies at
+        # fraction dt*speed/(3600*length) of the link, strictly inside it (the cell that point falls
+        # in is h3 geometry: stubbed, see H3Shim; under concrete replay the real h3 decides)
+        if boot.SYMBOLIC:
+            last = stubs.H3_SHIM.last
+            if last is None:
+                return False
+            lat0, lon0 = real_h3.h3_to_geo(link.start)
+            lat1, lon1 = real_h3.h3_to_geo(link.end)
+            ratio = (x.dt * SECONDS_TO_HOURS) * link.speed_kmph / link.distance_km
+            if not (0 < ratio and ratio < 1):
+                return False
+            if not (feq(last[0], lat0 + (lat1 - lat0) * ratio) and feq(last[1], lon0 + (lon1 - lon0) * ratio)):
+                return False
+        else:
+            if not fle(d_odo, link.speed_kmph * x.dt / 3600.0 + 0.002):
+                return False
+            if v2.geoid == v.geoid:
+                return False  # progress: a vehicle with energy leaves the start cell
     return True
 
 
@@ -273,7 +292,8 @@ def _o_c03(x) -> bool:
         # exactly one pickup event, by this vehicle, at the origin, fare credited once, now on board
         if not (len(pick) == 1 and pick[0].report["request_id"] == "r0" and pick[0].report["vehicle_id"] == "v0"):
             return False
-        if not (onboard2 == "r0" and KIND == 9 and feq(d_bal, A.R0.value)):
+        # ... unless the vehicle ran out of energy on the first leg (the statement's exception)
+        if not ((onboard2 == "r0" or x.k2 == 1) and KIND == 9 and feq(d_bal, A.R0.value)):
             return False
         if pick[0].report["geoid"] != A.R0.origin:
             return False
@@ -378,6 +398,8 @@ def _decide(x) -> bool:
         return _o_c06(x)
     if ORACLE == "C07":
         return _o_c07(x)
+    if ORACLE == "C08":
+        return I.idx_ok(x.sim2)
     if ORACLE == "C10":
         return I.mem_ok_vehicle(x.sim2, x.v2)
     if ORACLE == "C16":
